@@ -19,19 +19,67 @@ CLAIMED = {
             TECH_S),
 }
 
-CLAIMED["C01"] = ("DESIGN.md C01",
+TB = "CrossHair 0.0.110 + z3 5.1 (and cvc5 1.4 for Engine F), the stubs and models of vf/chplug.py / vf/prelude.py (validated on every run, listed in every evidence file), the oracles in /verif/vf (invariants.py, refformat.py, spec.py)"
+CLAIMED["C01"] = ("DESIGN.md section 3 C01",
     "Real Project.write_to -> real read_sunvox_file with every value of a concrete shape symbolic over its documented width: header fields, names with free code points around "
     "the 32-byte SNAM limit, all 42 module types (controllers, options, MIDI bindings, common and MIDI settings), module slot layouts with empty positions, pattern lists "
-    "(patterns, clones, empty) with symbolic cells.  Universal inside each shape; shapes are enumerated from a stated finite family.",
-    "CrossHair/z3, the stubs of vf/chplug.py + vf/prelude.py, the snapshot oracle vf/invariants.py", TECH_S)
-CLAIMED["C02"] = ("DESIGN.md C02",
+    "(patterns, clones, empty) with symbolic cells.  Universal inside each shape; shapes are enumerated from a stated finite family.", TB, TECH_S)
+CLAIMED["C02"] = ("DESIGN.md section 3 C02",
     "Every non-Output type through Synth write/read and Module.clone() with symbolic controller values, options, bindings and common settings; array payloads symbolic element-wise; "
-    "project-writer vs synth-writer byte equality.  FMX float payload and the empty-synth refusal are concrete side-conditions (listed as such).",
-    "as C01; struct float packing is outside CrossHair's model (floats enumerated)", TECH_S)
-CLAIMED["C09"] = ("DESIGN.md C09",
+    "project-writer vs synth-writer byte equality.  FMX float payload and the empty-synth refusal are concrete side-conditions (listed as such).", TB, TECH_S)
+CLAIMED["C03"] = ("DESIGN.md section 3 C03",
+    "Bytes from the real writers are parsed completely by an independent decoder written from the documentation and the YAML (never importing rv) and the decoded record is compared with "
+    "the object's public state for symbolic values: chunk ids, order, widths, signedness, offset convention, terminators, CVAL/CMID counts, CHNM < CHNK.", TB, TECH_S)
+CLAIMED["C04"] = ("DESIGN.md section 3 C04",
+    "Streams from the independent reference encoder / re-emitted fixtures with symbolic stored values are loaded by the real reader and compared with the documented decoding; "
+    "unknown chunks with symbolic payload at a symbolic position, dropped optional chunks, CVAL lists of other lengths, reordered header chunks, empty module slots are decided differentially.", TB, TECH_S)
+CLAIMED["C05"] = ("DESIGN.md section 3 C05",
+    "Y = save(load(X)), Y' = save(load(Y)) with X's stored controller words symbolic over all 32-bit values (incl. out of range), option bytes, header ints, notes, links symbolic: Y == Y' as bytes, "
+    "purity of save asserted in the same harness; stability for every n follows because save-after-load is a function of the bytes.", TB, TECH_S)
+CLAIMED["C06"] = ("DESIGN.md section 3 C06",
+    "Fixtures are loaded concretely, attribute groups of the loaded object get symbolic in-domain values, the object is saved and re-loaded: the re-loaded snapshot equals the edited object's and the edit "
+    "touched nothing else.  Covers the sampler's envelopes, samples, maps, record fields and effect on the shipped sampler fixture.", TB, TECH_S)
+CLAIMED["C07"] = ("DESIGN.md section 3 C07",
+    "Bounded histories through the real connect()/>>/<</~ API: concrete prefix enumerated by the driver, last request fully symbolic (source subset, target subset, connect/disconnect, call form); "
+    "link-table invariant and edge-set specification asserted after every request.  Exhaustive over the symbolic request inside the stated (M, k); silent beyond.", TB, TECH_S)
+CLAIMED["C08"] = ("DESIGN.md section 3 C08",
+    "The link states of C07's histories through real save/load (tables equal up to trailing freed slots, invariant on the loaded project) and reference-encoded projects with symbolic SLNK entries "
+    "and the SLnK chunk present for all / no / SunVox's choice of modules.", TB, TECH_S)
+CLAIMED["C09"] = ("DESIGN.md section 3 C09",
     "One symbolic value over ALL integers per controller kind and type: accept/reject/read-back semantics of every controller (attribute assignment, constructor keyword, lenient mode) "
-    "against the ranges, members and defaults of specs/fileformat.yaml.  Defaults and by-name enum assignment are finite concrete side-conditions.",
-    "CrossHair/z3, stubs, vf/spec.py (reference model read from the YAML)", TECH_S)
+    "against the ranges, members and defaults of specs/fileformat.yaml.  Defaults and by-name enum assignment are finite concrete side-conditions.", TB, TECH_S)
+CLAIMED["C10"] = ("DESIGN.md section 3 C10",
+    "Stored-value conversion of every controller over its whole range through the real get_raw/set_raw (left inverse => injective), generic ranges with symbolic bounds, and the pattern-column encoding "
+    "translated from the AST of Controller.pattern_value to QF_BVFP (IEEE double, RNE, truncation) and decided by cvc5 and z3 per distinct (min, max).", TB, TECH_SF)
+CLAIMED["C11"] = ("DESIGN.md section 3 C11",
+    "Options sharing a byte symbolic all at once through the real writer/reader (disjointness decided from the real packing code), REF-DEC against the YAML layout, inversion, exclusivity over three symbolic assignments, "
+    "clamping for v over all integers.", TB, TECH_S)
+CLAIMED["C12"] = ("DESIGN.md section 3 C12",
+    "Note encode/decode over the whole note domain, pattern byte images (every byte symbolic) for the listed shapes, and one (old word, sub-field, new value) obligation per packed sub-field with the old word over "
+    "its full 16/32-bit width.", TB, TECH_S)
+CLAIMED["C13"] = ("DESIGN.md section 3 C13",
+    "Behavioural equivalence with a reference model built from the YAML, for all values: acceptance and stored value of every range controller (v over all integers), placement of the n-th stored value of a "
+    "reference-encoded file, decoding of a reference-encoded options record.  Variable-free comparisons (registration, group, flags, tables, defaults) are concrete side-conditions.", TB, TECH_S)
+CLAIMED["C14"] = ("DESIGN.md section 3 C14",
+    "Bounded operation histories (attach, new_module, +=, re-attach, foreign module/pattern, save/load) from the empty project and from loaded projects with every gap pattern; last operation symbolic; "
+    "index coherence, lowest-gap rule, refusals without effect; Note.mod over all 16-bit module numbers.", TB, TECH_S)
+CLAIMED["C15"] = ("DESIGN.md section 3 C15",
+    "MetaModules built through the API with symbolic embedded values, user-defined controller counts 0/1/2/3/27 (thorough: ..95, 96), mappings onto every controller kind, labels; stand-alone, in a project and nested (depth 2/3); "
+    "REF-DEC counts the written controller values and label chunks.", TB, TECH_S)
+CLAIMED["C16"] = ("DESIGN.md section 3 C16",
+    "Samplers built through the API, one field group symbolic at struct width per obligation (sample slots/data/fields, 7 envelopes, note map, record fields, effect), real save/load plus REF-DEC against the documented "
+    "record layouts; reference-encoded pre-envelope legacy instruments with symbolic legacy points.", TB, TECH_S)
+CLAIMED["C17"] = ("DESIGN.md section 3 C17",
+    "Pairs (A, B) for all 42 types with B fresh / clone (both directions) / loaded from the same bytes: A mutated with symbolic values in every attribute group, B's snapshot and bytes compared before/after; "
+    "cross-type pairs sharing a chunk class; two projects and Project.clone().", TB, TECH_S)
+CLAIMED["C18"] = ("DESIGN.md section 3 C18",
+    "read_sunvox_file on a fault-injecting file with the fault index k symbolic over every read call (exception and truncation modes), initial flag value symbolic, path and file-object inputs, nested loads with their own fault index, "
+    "boundary chunk lengths: flag restored and library-opened file closed on every path.", TB, TECH_S)
+CLAIMED["C19"] = ("DESIGN.md section 3 C19",
+    "set_via_fn / set_via_gen with the failing cell / yield index symbolic (or never) and symbolic previous content: all-or-nothing, exact installation, untouched cells kept, note.pattern is the pattern; two successive edits.", TB, TECH_S)
+CLAIMED["C20"] = ("DESIGN.md section 3 C20",
+    "MultiCtl.macro under CrossHair (creation, linking, refusals, unmapped links) and convert_value translated from its AST to QF_BVFP: post-curve stage decided stage-wise for every u in 0..32768 per concrete tuple, "
+    "gain+curve stage per (gain, curve, bucket) incl. the bucket boundary; composition by interval arithmetic stated in the evidence.", TB, TECH_SF)
 
 PENDING_REASON = "no check is registered for this property yet (machinery under construction in this round); nothing is claimed"
 NOT_APPLICABLE = {}
